@@ -200,6 +200,15 @@ class SimWorld:
         raise RuntimeError(f"unknown fault kind {kind}")
 
     last_injected: BaseException | None = None
+    stall_hook = None  # thread engine: block the task in virtual time instead of advancing the clock
+
+    def stall(self, seconds: float) -> None:
+        self.log("stall", seconds)
+        self.faults_fired.append({"site": "leaf", "kind": "stall", "node": self.cur_node, "run": self.cur_run})
+        if self.stall_hook is not None:
+            self.stall_hook(seconds)
+        else:
+            self.clock.advance(seconds)
 
     def on_invoke(self, cls_name: str, kwargs: dict, data: Any = None) -> None:
         rec = {"run": self.cur_run, "node": self.cur_node, "cls": cls_name,
